@@ -39,6 +39,25 @@ def gen_cases(tier, seed):
                         h.ov_exit()
                     histgen.add_call(h, rnd, inv, kind='positive')
                     yield h.case(5000, 'systematic %s' % inv.name)
+    # a second block entered in the bare form ("with client.suppress_positive_response:") after a block that asked for
+    # wait_nrc: the earlier request must not outlive its block
+    for inv in invs:
+        for first in (True, False):
+            for kind, _ in histgen.reply_kinds(inv, rnd):
+                if kind not in ('positive', 'negative', 'silence'):
+                    continue
+                cfgv = list(cl.DEFAULT_CFG)
+                for s, v in inv.cfg.items():
+                    cfgv[s] = v
+                h = cl.H(cfgv)
+                h.spr_enter(first)
+                histgen.add_call(h, rnd, inv, kind='silence')
+                h.spr_exit()
+                h.spr_enter(None)
+                histgen.add_call(h, rnd, inv, kind=kind)
+                h.spr_exit()
+                histgen.add_call(h, rnd, inv, kind='positive')
+                yield h.case(5000, 'bare block after a block %s' % inv.name)
     n, m = (3000, 12) if tier == 'quick' else (100000, 40)
     for _ in range(n):
         h, tags = histgen.gen_history(rnd, m, invs, p_stale=0.05)
@@ -76,9 +95,11 @@ def oracle(c, r):
     i = 0
     for o in ops:
         if o[0] == 'spr_enter':
-            inside, wait = True, o[1]
+            inside = True
+            if o[1] is not None:      # the bare form does not ask to wait: whatever an earlier, exited block asked for is over
+                wait = o[1]
         elif o[0] == 'spr_exit':
-            inside = False
+            inside, wait = False, False
         elif o[0] == 'ov_enter':
             ov = o
         elif o[0] == 'ov_exit':
